@@ -452,7 +452,8 @@ def main(argv):
 
         if replay:
             body = json.load(open(replay if os.path.isabs(replay) else os.path.join(VERIF, replay)))
-            cases = [body["case"]] if "case" in body else []
+            # schedule-dependent cases are re-run several times (the recorded trace is in the replay file)
+            cases = [body["case"]] * prop.get("replay_repeats", 1) if "case" in body and not body["case"].startswith("<") else []
             pairs = run_cases(hbin, cases)
             account(pairs)
             violations.extend(evaluate(prop, pairs))
